@@ -656,6 +656,9 @@ def run_C18(R):
 C19_SYMS = ['a', 'b1', 'x-y', '"q r"', '"a, (b) ^c"', '12', '-', '"\\"q\\""', '1.5', '1,000', 'a,b',
             '"^"', '""', '"a,b"', 'x.y', 'é']
 C19_ROLES = [':instance', ':ARG0', ':op1', ':mod-of', ':x.y', ':A']
+# roles that contain the conjunction sign itself (leading, doubled, interior, trailing), several of them
+# a caret away from a role the spacing variants use ("x ^a(..)" against the role ":^a")
+C19_CARET_ROLES = [':^a', ':^', ':^^b', ':b^', ':^ARG1', ':^instance', ':a^b', ':^mod', ':^op2']
 
 
 @check('C19.roundtrip')
@@ -731,9 +734,20 @@ def run_C19_mixed(R):
 _run_C19_base = run_C19
 
 
+def run_C19_carets(R, n):
+    for it in range(n):
+        ts = [(R.rnd.choice(['a', 'b1', 'x-y']), R.rnd.choice(C19_CARET_ROLES if R.rnd.random() < 0.6 else C19_ROLES),
+               R.rnd.choice(C19_SYMS)) for _ in range(R.rnd.randint(1, 4))]
+        R.check('C19.roundtrip', {'triples': ts})
+
+
 def run_C19(R):
+    # caret roles before and after the spacing variants: all in one process, so a reading that depends on
+    # what was read earlier (in either order) shows
+    run_C19_carets(R, 300 if R.quick else 4000)
     _run_C19_base(R)
     run_C19_mixed(R)
+    run_C19_carets(R, 300 if R.quick else 4000)
 
 
 RUNNERS = {'C01': run_C01, 'C07': run_C07, 'C08': run_C08, 'C09': run_C09,
